@@ -39,7 +39,7 @@ theorem typing_validate_agrees :
     assigns the same result type and the same mark types.  (`nm`: the two string predicates both
     compilers call — gripql.ValidateFieldName and the reserved-name test — arbitrary.) -/
 theorem typing_agrees (nm : Names) (ss : List TStmt)
-    (hd : definedFrom [] ss = true) (ha : aggsTyped ss = true) :
+    (hd : definedFrom [] ss = true) :
     typeOf GripGen.MongoTyping.table nm ss = typeOf GripGen.CoreTypingC14.table nm ss := by
   have hv := Lemmas.tables_validate_alike
   have hf : firstOk GripGen.MongoTyping.table ss = firstOk GripGen.CoreTypingC14.table ss := by
@@ -52,7 +52,7 @@ theorem typing_agrees (nm : Names) (ss : List TStmt)
   | false => rfl
   | true =>
     simp only [if_true]
-    exact Lemmas.runT_agree nm ss ⟨.noData, []⟩ [] (by intro _ p hp; cases hp) (by intro n hn; cases hn) hd ha
+    exact Lemmas.runT_agree nm ss ⟨.noData, []⟩ [] (by intro _ p hp; cases hp) (by intro n hn; cases hn) hd
 
 /-- Outside the scope the compilers do differ (so the hypotheses are not decoration): selecting a
     mark that was never defined makes the core compiler continue at NoData, the Mongo compiler at
@@ -64,12 +64,14 @@ theorem typing_differs_on_undefined_mark (nm : Names) :
       = some ⟨.noData, []⟩ := by
   constructor <;> rfl
 
-/-- …and an aggregation without a type is refused by the Mongo compiler only. -/
-theorem typing_differs_on_untyped_aggregation (nm : Names) :
+/-- …while an aggregation without a type, which only the Mongo compiler used to refuse, is now
+    refused by both (`fix: the compiler rejects an aggregation without a type`), so `typing_agrees`
+    no longer needs the hypothesis that every aggregation is typed. -/
+theorem typing_agrees_on_untyped_aggregation (nm : Names) :
     typeOf GripGen.MongoTyping.table nm [{ kind := .v }, { kind := .aggregate, list := ["n"], unk := true }]
       = none ∧
     typeOf GripGen.CoreTypingC14.table nm [{ kind := .v }, { kind := .aggregate, list := ["n"], unk := true }]
-      = some ⟨.aggregation, []⟩ := by
+      = none := by
   constructor <;> rfl
 
 /-! ## Filter meaning -/
